@@ -114,6 +114,17 @@ def build_kwargs(case) -> dict:
     return kw
 
 
+def project_raw(result, tol=1e-9):
+    """raw projection, slot by slot; a value that is not a small rational becomes 'unspecified'"""
+    out = []
+    for x in np.asarray(result).reshape(-1):
+        try:
+            out.append(pv(x, tol))
+        except ProjectionError:
+            out.append([0, -1])
+    return out
+
+
 def project_out(func: str, result, tol=1e-9):
     res = np.asarray(result)
     if func in STD_FUNCS:
@@ -155,6 +166,8 @@ def run_reduce_case(case: dict) -> dict:
         rec["out_dtype_seen"] = str(np.asarray(result).dtype)
         rec["groups"] = label_tokens(groups, kind)
         rec["out"] = project_out(case["func"], result)
+        if case["func"] in STD_FUNCS:
+            rec["raw"] = project_raw(result)
     except ProjectionError as e:
         rec["exc"] = "ProjectionError"
         rec["msg"] = str(e)
@@ -183,5 +196,7 @@ def tlc_record(rec: dict, rid: int, check_groups: bool = True) -> dict:
         "min_count": -1 if case.get("min_count") is None else int(case["min_count"]),
         "groups": rec["groups"],
         "out": rec["out"],
-        "check_groups": check_groups,
+        "raw": rec.get("raw", rec["out"]),
+        "gmode": ("none" if not check_groups else
+                  ("perm" if (not case.get("sort", True) and case.get("req") is None and case.get("chunks") is not None) else "exact")),
     }
